@@ -149,17 +149,17 @@ def check(ctx):
     for cfg in cfgs:
         db = ctx.db(cfg)
         n = 0
-        for key in CONST_FNS + (CONST_FNS_F1 if cfg != "F0" else []):
+        for key in CONST_FNS + (CONST_FNS_F1 if (not cfg.startswith("F0")) else []):
             b = ctx.body(cfg, key, "C18.Q")
             if b is None:
                 continue
             is_const = bool(b.get("const"))
             vis = b["vis"]["exported"] or b["vis"]["reachable"]
             builder = not key.startswith(K) and key != "const_transmute"
-            need_vis = (cfg != "F0") or not builder
+            need_vis = ((not cfg.startswith("F0"))) or not builder
             ctx.ob("C18.Q", key, is_const and (vis or not need_vis), "const fn: %s; exported: %s" % (is_const, vis), at=b["at"], cfg=cfg)
             n += 1
-        ctx.floor("C18.Q", "const surface (%s)" % cfg, n, 27 if cfg == "F0" else 28)
+        ctx.floor("C18.Q", "const surface (%s)" % cfg, n, 27 if cfg.startswith("F0") else 28)
         # no const fn silently lost from the surface: every const fn of the build is on the list (new ones are fine)
         div = divergence_sites(db)
         ctx.ob("C18.D", "divergence intrinsics (%s)" % cfg, not div, "calls to const_eval_select-style intrinsics in the crate: %s" % (div or "none"), cfg=cfg)
